@@ -39,7 +39,7 @@ static H128 hash128(const std::string& s) {
 static std::string hex128(const H128& h) { char b[40]; snprintf(b, sizeof b, "%016llx%016llx", (unsigned long long)h.a, (unsigned long long)h.b); return b; }
 
 // ------------------------------------------------------------------------------------------------ alphabet
-enum { ALPHA_FULL = 0, ALPHA_STRUCT = 1 };
+enum { ALPHA_FULL = 0, ALPHA_STRUCT = 1, ALPHA_RECYCLE = 2 };   // RECYCLE: setUserData / release / cloneNode / removeChild / importNode only (deep, narrow: node storage reuse)
 static int g_alpha = ALPHA_FULL;
 static std::vector<char> g_active;  // ALPHA_STRUCT: operand restriction (empty = all)
 static const int N_ORIG = 12;
@@ -54,6 +54,18 @@ static void genOps(const RDom& d, std::vector<Opn>& out) {
     std::vector<int> withNull = live; withNull.push_back(-1);
     for (int i : live) { if (d.n[i].type == DOC) docs.push_back(i); if (d.n[i].type == ATTR) attrs.push_back(i); }
     auto add = [&](int code, int t, int a = -1, int b = -1, int v = 0, int w = 0) { Opn o; o.code = code; o.t = t; o.a = a; o.b = b; o.v = v; o.w = w; out.push_back(o); };
+    if (g_alpha == ALPHA_RECYCLE) {
+        // a released node's storage is handed to the next node of the same kind: histories annotate, detach, release and create again
+        for (int t : live) {
+            const RNode& T = d.n[t];
+            for (int a : live) if (d.n[a].parent == t) add(OP_REMOVE, t, a);
+            add(OP_CLONE, t, -1, -1, 0);
+            for (int v = 0; v < 2; v++) add(OP_USERDATA, t, -1, -1, v);
+            add(OP_RELEASE, t);
+            if (T.type == DOC) for (int a : live) if (d.n[a].type == EL || d.n[a].type == TEXT) add(OP_IMPORT, t, a, -1, 0);
+        }
+        return;
+    }
     for (int t : live) {
         const RNode& T = d.n[t];
         for (int a : withNull) add(OP_APPEND, t, a);
@@ -683,6 +695,7 @@ int main(int argc, char** argv) {
     bool fix = a.num("fix", 0) != 0;
     int maxLayers = (int)a.num("max-layers", 64);
     bool reduceLast = a.num("reduce-last", 0) != 0;
+    if (a.str("alphabet", "full") == "recycle") g_alpha = ALPHA_RECYCLE;
     if (fix) {
         g_alpha = ALPHA_STRUCT;
         std::string act = a.str("active", "");
